@@ -708,9 +708,11 @@ def missing(rep, rd, wr):
     return m
 
 
-def classify(s, n):
+def classify(s, n, own=()):
     """reason code of a leaf statement whose report does not cover its execution"""
     from psyclone.psyir import nodes as N
+    if isinstance(n, N.Call) and own and all(kind == "read" for _, kind in own):
+        return "call/argument-or-subscript-not-read"
     if isinstance(n, N.CodeBlock):
         txt = " ".join(str(a) for a in n.get_ast_nodes).strip().upper()
         return "codeblock/accesses-not-reported:" + (txt.split()[0].split("(")[0] if txt else "?")
@@ -868,7 +870,8 @@ def run(ctx):
     ctx.cov["rule"] = ("programs = vlib.fortgen programs (assign/IF/DO/EXIT/CYCLE, affine and indirect subscripts, zero-trip and "
                        "negative-step loops) enriched with calls to generated callees with declared intents (pure and impure), "
                        "intrinsic subroutines (parsed Call nodes and IntrinsicCall.create), ALLOCATE/DEALLOCATE(+STAT=), DO WHILE, "
-                       "PRINT, plus %d fixed shapes; a case = one statement node of one program (VariablesAccessInfo(node)); "
+                       "PRINT, derived-type accesses with subscripts on any component (grid(ii)%%cells(jj)%%vals(j), sg%%x(i); harness oracle only), "
+                       "plus %d fixed shapes; a case = one statement node of one program (VariablesAccessInfo(node)); "
                        "non-trivial = the node was executed by the interpreter on some store and read or wrote a variable; "
                        "distinct = canonical (statement, report)") % len(targeted())
     ctx.cov["trusted_base"] = core.BASE_TRUST + [
@@ -898,7 +901,7 @@ def run(ctx):
             struct_vals(ctx.rng("tgs%d" % k), vals)
             stores.append((vals, bnds))
         progs.append((t, g.decls() + EXTRA_DECLS, stores, "targeted"))
-    for _ in range(ctx.pick(80, 1000)):
+    for _ in range(ctx.pick(80, 700)):
         g = XGen(rng, max_depth=rng.choice([1, 2, 2, 3]))
         g.p_ext = rng.choice([0.0, 0.15, 0.3, 0.45])
         g.p_struct = rng.choice([0.0, 0.0, 0.1, 0.2])
@@ -1020,7 +1023,7 @@ def run(ctx):
                                          "reported": reports[p][1] if p else whole[1]}))
                 continue
             s, n = by_path[p]
-            key = classify(s, n)
+            key = classify(s, n, own)
             gap_seen[key] = gap_seen.get(key, 0) + 1
             prop_fail.append((key, {"program": txt, "statement": xstmts_to_fortran([s], "")[0], "statement_path": list(p),
                                     "not_reported": sorted(own), "reported": reports[p][1],
